@@ -17,6 +17,8 @@ only validated (thread stress), see the evidence file.
 -/
 import Mahotas.Proofs.C12
 import Mahotas.Proofs.C12Kernels
+import Mahotas.Proofs.C12Roles
+import Mahotas.Proofs.C12Exceptions
 import Mahotas.Generated.Statics
 namespace Mahotas.C12
 open Mahotas
@@ -376,6 +378,154 @@ theorem C12_label_cwatershed_traces_partial (c : Call) (hne : c.outputs ≠ []) 
   · have h := C12_kernel_confined (Kernel.cwatershed vS vM vBc surf markers bc) c hne
     exact ⟨h.2.1, h.2.2.1⟩
 
+/-! ## T4, round 3 — well-formed roles, generic calls, exception paths -/
+
+/-- **C12-T4 (roles are well formed: confinement is not an artefact of the fall-back).** `Call.arrOf` resolves a role
+whose index does not exist to the call's first owned array, which makes `mkStep_within` true for ANY role-level
+step. This theorem removes that crutch for the five kernel access programs: for every kernel `k` (any parameters,
+any data) (1) every step `r` of `k.raw` mentions only roles inside `k.arity` (`RStep.rolesOk`: destination index
+`< arity.2`, every source `inp i` with `i < arity.1`, `own i` with `i < arity.2`) — erode, convolve and the labeled
+folds use 2 argument and 2 owned arrays, label 1 and 4, cwatershed 3 and 6; hence (2) for every footprint `c` with
+at least `arity.1` argument arrays and `arity.2` owned arrays the STRICT resolution `mkStep?` (which fails instead of
+falling back) succeeds on every step and returns exactly `mkStep c r`; (3) the array written is `c.outputs[r.dst]`,
+the owned array the step names. So the write set of each kernel is contained in the call's owned arrays because
+every destination IS one of the named owned arrays, and the read set in the named argument / owned arrays. -/
+theorem C12_kernel_roles_wellformed (k : Kernel) :
+    (∀ r ∈ k.raw, r.rolesOk k.arity = true) ∧
+    (∀ c : Call, c.HasArity k.arity → ∀ r ∈ k.raw,
+      mkStep? c r = some (mkStep c r) ∧ c.outputs[r.dst]? = some (mkStep c r).dst.arr) := by
+  refine ⟨kernel_rolesOk k, fun c hc r hr => ⟨?_, ?_⟩⟩
+  · exact mkStep?_of_rolesOk c k.arity hc r (kernel_rolesOk k r hr)
+  · exact mkStep_dst_of_rolesOk c k.arity hc r (kernel_rolesOk k r hr)
+
+/-- **C12-T4 (any role-level programs).** `C12_concurrent_kernels_independent` for an arbitrary family of calls, each
+running an ARBITRARY role-level program (`KCall`: the five kernels, further kernels, truncated programs of calls that
+raise): every call owns at least one array and an array owned by one call is neither owned nor read by another ⇒ for
+every schedule and initial memory (1) every location of an array owned by call `t` holds what `t`'s solo run with the
+same number of turns leaves there, (2) for a complete schedule the result of its complete solo run, (3) arrays nobody
+owns are unchanged. -/
+theorem C12_concurrent_calls_independent (kcs : List KCall)
+    (hne : ∀ kc ∈ kcs, kc.call.outputs ≠ []) (hd : DisjointOutputs (kcs.map (·.call)))
+    (sched : List Nat) (m : Mem) :
+    let calls := kcs.map (·.call)
+    (∀ (t : Nat) (kc : KCall), kcs[t]? = some kc → ∀ l : KLoc, l.arr ∈ kc.call.outputs →
+      (run (compile kcs) sched (init m)).mem (l.toLoc calls) =
+        (soloSteps (compile kcs) t (sched.count t) m).mem (l.toLoc calls) ∧
+      (Complete (compile kcs) sched →
+        (run (compile kcs) sched (init m)).mem (l.toLoc calls) = solo (compile kcs) t m (l.toLoc calls))) ∧
+    (∀ l : KLoc, (∀ kc ∈ kcs, l.arr ∉ kc.call.outputs) →
+      (run (compile kcs) sched (init m)).mem (l.toLoc calls) = m (l.toLoc calls)) := by
+  intro calls
+  have hconf : Confined (compile kcs) := compile_confined kcs hne hd
+  refine ⟨?_, ?_⟩
+  · intro t kc ht l hl
+    have hreg : (l.toLoc calls).region = .priv t :=
+      region_of_output calls hd t kc.call (by simp [calls, ht]) l.arr hl
+    exact ⟨(C12_interleaving_independent _ hconf sched m t).1 _ hreg,
+      fun hs => C12_interleaving_independent_complete _ hconf sched hs m t _ hreg⟩
+  · intro l hl
+    apply C12_shared_unchanged _ hconf
+    left
+    apply region_unowned
+    intro c hc
+    simp only [calls, List.mem_map] at hc
+    obtain ⟨kc, hkc, rfl⟩ := hc
+    exact hl kc hkc
+
+/-- **C12 (exception paths release nothing).** Composition of the lock skeletons (T2) with the confinement of the
+access programs (T4). Take any family `kcs` of native calls in flight (arbitrary role-level programs, every call owns an
+array, disjoint outputs) and let call `t` = `kc` be wrapped in idiom `i` ∈ {(a) RAII release inside
+`SAFE_SWITCH_ON_TYPES_OF`, (b) braced scope with `restore()`, (c) `try { gil_release … } catch (bad_alloc)`} and leave
+its kernel with ANY outcome `o` the idiom can exhibit: a C++ exception after `k` steps ((a), (c)), an in-place error
+after `k` steps ((b)), or normal completion. Then
+(1) *control*: the trace keeps the lock `Discipline`; it is `validate, release`, then exactly as many `kernelStep`s as the
+truncated access program `kc.truncate o` has steps (the first `min k n` steps of the program), then the exit sequence
+(`throw, acquire, PyErr, ret` resp. `acquire, PyErr, ret`) — every kernel step lies between the release and the exit
+sequence, none after the throw;
+(2) *memory, the call alone*: the steps that did run leave every location of every array the call does not own
+unchanged (its arguments included) — whatever `k` is;
+(3) *memory, the other calls*: for every schedule, every location outside the arrays `t` owns holds exactly what it
+holds when call `t` never runs its kernel at all (program `[]`): the other calls' results and the shared inputs cannot
+tell whether, or where, `t` raised;
+(4) the partial result left in `t`'s own arrays after a complete schedule is that of the first `min k n` steps of its
+solo program, independent of the schedule. -/
+theorem C12_exception_paths_release_nothing (kcs : List KCall)
+    (hne : ∀ kc ∈ kcs, kc.call.outputs ≠ []) (hd : DisjointOutputs (kcs.map (·.call)))
+    (t : Nat) (kc : KCall) (ht : kcs[t]? = some kc) (i : Idiom) (o : Outcome)
+    (hp : Outcome.possible i o = true) (sched : List Nat) (m : Mem) :
+    let n := kc.raw.length
+    let tr := skeleton i n false o
+    let kcs' := kcs.set t (kc.truncate o)
+    let kcs0 := kcs.set t ⟨kc.call, []⟩
+    let calls := kcs.map (·.call)
+    (Discipline tr ∧
+      tr = [.validate, .release] ++ steps (kc.truncate o).raw.length ++ exitSeq o ∧
+      tr.count .kernelStep = (kc.truncate o).raw.length ∧
+      (∀ j, tr[j]? = some .kernelStep → 2 ≤ j ∧ j < 2 + (kc.truncate o).raw.length) ∧
+      Ev.kernelStep ∉ exitSeq o) ∧
+    (∀ l : KLoc, l.arr ∉ kc.call.outputs →
+      solo (compile kcs') t m (l.toLoc calls) = m (l.toLoc calls)) ∧
+    (∀ l : KLoc, l.arr ∉ kc.call.outputs →
+      (run (compile kcs') sched (init m)).mem (l.toLoc calls) =
+        (run (compile kcs0) sched (init m)).mem (l.toLoc calls)) ∧
+    (Complete (compile kcs') sched → ∀ l : KLoc, l.arr ∈ kc.call.outputs →
+      (run (compile kcs') sched (init m)).mem (l.toLoc calls) =
+        execAll ((compile kcs t).take (o.ran n)) m (l.toLoc calls)) := by
+  intro n tr kcs' kcs0 calls
+  have hlen : (kc.truncate o).raw.length = o.ran n := truncate_length kc o
+  have hc' : kcs'.map (·.call) = calls := set_map_call kcs t kc _ ht (truncate_call kc o)
+  have hc0 : kcs0.map (·.call) = calls := set_map_call kcs t kc _ ht rfl
+  have hlt : t < kcs.length := (List.getElem?_eq_some_iff.1 ht).1
+  have ht' : kcs'[t]? = some (kc.truncate o) := by simp [kcs', hlt]
+  have ht0 : kcs0[t]? = some ⟨kc.call, []⟩ := by simp [kcs0, hlt]
+  have hkcne : kc.call.outputs ≠ [] := hne kc (List.mem_of_getElem? ht)
+  have hne' : ∀ x ∈ kcs', x.call.outputs ≠ [] := by
+    intro x hx
+    rcases List.mem_or_eq_of_mem_set hx with h | h
+    · exact hne x h
+    · rw [h, truncate_call]; exact hkcne
+  have hne0 : ∀ x ∈ kcs0, x.call.outputs ≠ [] := by
+    intro x hx
+    rcases List.mem_or_eq_of_mem_set hx with h | h
+    · exact hne x h
+    · rw [h]; exact hkcne
+  have hconf' : Confined (compile kcs') := compile_confined kcs' hne' (by rw [hc']; exact hd)
+  have hconf0 : Confined (compile kcs0) := compile_confined kcs0 hne0 (by rw [hc0]; exact hd)
+  refine ⟨⟨C12_gil_discipline_all_paths i n o hp, ?_, ?_, ?_, (exitSeq_no_kernelStep o).1⟩, ?_, ?_, ?_⟩
+  · rw [hlen]; exact skeleton_shape i n o hp
+  · rw [hlen]; exact skeleton_kernelSteps i n o hp
+  · intro j hj; rw [hlen]; exact skeleton_kernelStep_pos i n o hp j hj
+  · intro l hl
+    have := solo_frame kcs' t (kc.truncate o) ht' (by rw [truncate_call]; exact hkcne) m l
+      (by rw [truncate_call]; exact hl)
+    rw [hc'] at this
+    exact this
+  · intro l hl
+    rcases owner_cases calls l.arr with ⟨u, c, hu, ha⟩ | hnone
+    · -- owned by call `u ≠ t`: both runs give `u`'s solo run, and `u`'s program is the same in both families
+      have hut : u ≠ t := by
+        intro h
+        subst h
+        have : c = kc.call := by
+          have h2 : calls[u]? = some kc.call := by simp [calls, ht]
+          rw [hu] at h2
+          exact Option.some.inj h2
+        exact hl (this ▸ ha)
+      have hreg : (l.toLoc calls).region = .priv u := region_of_output calls hd u c hu l.arr ha
+      rw [(C12_interleaving_independent _ hconf' sched m u).1 _ hreg,
+        (C12_interleaving_independent _ hconf0 sched m u).1 _ hreg]
+      rw [soloSteps_congr (compile kcs') (compile kcs0) u
+        ((compile_set_other kcs t u kc _ ht (truncate_call kc o) hut).trans
+          (compile_set_other kcs t u kc ⟨kc.call, []⟩ ht rfl hut).symm)]
+    · have hreg : (l.toLoc calls).region = .sharedRO := region_unowned calls l.arr hnone
+      rw [C12_shared_unchanged _ hconf' sched m _ (Or.inl hreg),
+        C12_shared_unchanged _ hconf0 sched m _ (Or.inl hreg)]
+  · intro hs l hl
+    have hreg : (l.toLoc calls).region = .priv t :=
+      region_of_output calls hd t kc.call (by simp [calls, ht]) l.arr hl
+    rw [C12_interleaving_independent_complete _ hconf' sched hs m t _ hreg, solo_eq_execAll,
+      compile_truncate kcs t kc ht o]
+
 /-! ## non-vacuity -/
 
 namespace Mahotas.C12.Examples
@@ -529,6 +679,32 @@ example :
       ⟨[2, 2], #[1, 2, 3, 4]⟩ ⟨[2, 2], #[1, 0, 0, 2]⟩ #[0, 1, 0, 1, 1, 1, 0, 1, 0]
     let cw : Call := ⟨[1, 2, 3], [10, 11, 12, 13, 14, 15]⟩
     ((kw.call cw).prog.all (KStep.withinB cw)) = true ∧ 20 ≤ (kw.call cw).prog.length := by
+  decide +kernel
+
+/-- round 3, roles: the footprints of `ks` have the arity of `erode`; a step naming a sixth owned array in a call
+with two is caught by the strict resolution (while `mkStep` silently falls back to the first owned array) -/
+example : (⟨[10, 11], [20, 21]⟩ : Call).HasArity k0.arity ∧
+    (k0.raw.all fun r => r.rolesOk k0.arity) = true ∧ k0.raw.length = 6 ∧
+    (mkStep? ⟨[10, 11], [20, 21]⟩ ⟨5, 0, [], fun _ => 0⟩).isNone = true ∧
+    (mkStep ⟨[10, 11], [20, 21]⟩ ⟨5, 0, [], fun _ => 0⟩).dst.arr = 20 ∧
+    RStep.rolesOk (2, 2) ⟨5, 0, [], fun _ => 0⟩ = false := by
+  refine ⟨⟨by decide, by decide⟩, by decide +kernel, by decide +kernel, by decide, by decide, by decide⟩
+
+/-- round 3, exception paths: call 0 of `ks` (idiom (a)) throws after 4 of its 6 steps (3 filter copies, 1 pixel):
+its trace has 4 kernel steps, its own result array holds the partial result `[4, 0, 0]`, call 1 still ends with its
+full erosion `[2, 2, 6]`, the shared input array 10 is unchanged -/
+example :
+    let kcs := ks.map (fun p => p.1.call p.2)
+    let calls := ks.map (·.2)
+    let kcs' := kcs.set 0 ((k0.call ⟨[10, 11], [20, 21]⟩).truncate (.throwAt 4))
+    let m0 := memOf calls content
+    let sched := [0,1,1,0,0,1,0,1,1,0,0,1]
+    skeleton .a 6 false (.throwAt 4) =
+      [.validate, .release, .kernelStep, .kernelStep, .kernelStep, .kernelStep, .throw, .acquire, .interpAccess, .ret] ∧
+    Outcome.possible .a (.throwAt 4) = true ∧
+    outOf calls (run (compile kcs') sched (init m0)).mem 20 = [4, 0, 0] ∧
+    outOf calls (run (compile kcs') sched (init m0)).mem 30 = [2, 2, 6] ∧
+    outOf calls (run (compile kcs') sched (init m0)).mem 10 = [5, 3, 7] := by
   decide +kernel
 
 end Mahotas.C12.Examples
